@@ -61,7 +61,7 @@ func TestRaceAudit(t *testing.T) {
 	var cases []ra.Case
 	for _, k := range ks {
 		k := k
-		cases = append(cases, ra.Case{Key: k.String(), PerG: true, Fn: func(g int) string {
+		cases = append(cases, ra.Case{Key: "script-data-hash|" + k.String(), PerG: true, Fn: func(g int) string {
 			w := newWorld(g)
 			tables := costTables(k.table)
 			env := NewEraEnv(k.era)
